@@ -123,6 +123,7 @@ type c02Point struct {
 	Groups  string    `json:"groups"` // none | zero | one | forty | fail
 	Ext     string    `json:"ext"`
 	Target  string    `json:"target"` // same | other | case | prefix | suffix | slash | empty
+	Via     string    `json:"via,omitempty"` // "" = login form then session cookie | basic = basic-auth on the certificate request itself
 }
 
 func c02World(d c02Deploy, ext c02Ext) *vfWorld {
@@ -259,6 +260,9 @@ func c02Run(w *vfWorld, p c02Point) (violated bool, key, what, class string) {
 	// log in through the real endpoint with the name as typed
 	lr := w.Do(vfReq{Method: "POST", Path: "/api/v0/login", Form: url.Values{"username": {typed}, "password": {c02Pw(p.Account)}}}.Build())
 	ck := lr.Cookie(authCookieName)
+	if p.Via == "basic" && ck != nil {
+		ck = &http.Cookie{Name: "unused", Value: ""} // the certificate request authenticates itself
+	}
 	accounts := map[string]bool{}
 	for _, a := range c02Accounts() {
 		accounts[a] = true
@@ -309,6 +313,10 @@ func c02Run(w *vfWorld, p c02Point) (violated bool, key, what, class string) {
 	}
 	q.Path = certgenPath + (&url.URL{Path: target}).EscapedPath()
 	q.Cookies = []*http.Cookie{{Name: authCookieName, Value: ck.Value}}
+	if p.Via == "basic" {
+		q.Cookies = nil
+		q.HasBasic, q.Basic = true, [2]string{typed, c02Pw(p.Account)}
+	}
 	resp := w.Do(q.Build())
 	sshCert, sshErr := vfParseSSHCert(resp.Body)
 	xCert, xErr := vfParseCertPEM(resp.Body)
@@ -496,7 +504,7 @@ func init() {
 	vfRegister(&vfeng.Check{
 		ID:    "C02",
 		Level: "model_checking",
-		Rule:  "exhaustive product deployment (Kerberos realm none/short/long x Ed25519 CA x RSA/ECDSA primary CA x normalisation x user-name filter on/off) x account name (17 names: cases, dots, dashes, plus, underscore, digits, 1..200 chars, case twins) x name as typed x key (RSA 2048/3072/4096, P-256/384/521, Ed25519) x certificate type, with group mode, SSH extension template set and URL target variant cycled so that every pair occurs (thorough: full product for the default deployment); every returned certificate is decoded independently and compared with (normalised user, submitted key, published CA keys, expected extensions/SAN/groups)",
+		Rule:  "exhaustive product deployment (Kerberos realm none/short/long x Ed25519 CA x RSA/ECDSA primary CA x normalisation x user-name filter on/off) x account name (17 names: cases, dots, dashes, plus, underscore, digits, 1..200 chars, case twins) x name as typed x entry (login form + session cookie / basic-auth on the certificate request) x key (RSA 2048/3072/4096, P-256/384/521, Ed25519) x certificate type, with group mode, SSH extension template set and URL target variant cycled so that every pair occurs (thorough: full product for the default deployment); every returned certificate is decoded independently and compared with (normalised user, submitted key, published CA keys, expected extensions/SAN/groups)",
 		Assumptions: []string{"when a configured extension key collides with a standard one the value is not judged", "ed25519 subject keys without an Ed25519 CA, and group lookups that fail when groups are requested, may be refused"},
 		Shards: func(tier string) int { return 16 },
 		Run: func(c *vfeng.Ctx) {
@@ -522,7 +530,7 @@ func init() {
 								for _, typ := range []string{"ssh", "x509", "x509-kubernetes"} {
 									n++
 									i++
-									p := c02Point{Deploy: d, Account: acct, Typed: typed, Key: kn, Type: typ, Groups: groups[n%len(groups)], Ext: ext.Name, Target: targets[(n/5)%len(targets)]}
+									p := c02Point{Deploy: d, Account: acct, Typed: typed, Key: kn, Type: typ, Groups: groups[n%len(groups)], Ext: ext.Name, Target: targets[(n/5)%len(targets)], Via: []string{"", "basic"}[(n/7)%2]}
 									if typ == "ssh" {
 										p.Groups = "none"
 									}
